@@ -191,6 +191,18 @@ CHECKS = {
    note="bounded: grid lines <= 6/9 characters (x1, x3), generated documents up to ~10 KiB; two known findings (lone CR line breaks, "
         "context line left of the window shown uncropped); " + TRUST,
    technique="TLA+ model (Snippet.tla) checked by TLC + TLC-generated grid cases replayed into the real renderer + TLC trace validation of rendered reports"),
+ "C18": dict(
+   category="model_checking",
+   text="PathMap.tla models the path recorder over the raw event stream (every mapping value and sequence element recorded under "
+        "its key / index path with the use site and definition site of Locations.tla, own entries shadowing merged ones) and the "
+        "issues a fixed validated family must report (display path, both sites); TLC enumerates the family's documents as raw "
+        "events, checks the recorder model against per-form expectations and emits each as a case; the harness runs garde and "
+        "validator entry points (str, slice, reader, streams) next to the plain ones and reads the reported issues from the "
+        "miette adapter; the TLA+ trace validator decides every call.",
+   design_ref="DESIGN.md section 4 C18",
+   note="bounded: one fixed type family; <= 0/1 items exhaustively, <= 4 random; PathMap::search's fuzzy passes are exercised only "
+        "through renamed fields and decoy keys (one known finding); " + TRUST,
+   technique="TLA+ model (PathMap.tla) checked by TLC + TLC-generated documents replayed into the real entry points + TLC trace validation of reported issues"),
  "C15": dict(
    category="model_checking",
    text="AnchorStore.tla's call-history part models the thread-local state (context stack, store, in-progress set) under nested "
